@@ -4,7 +4,8 @@
    column data (points, proper and even improper intervals over Z; any value sets; any
    booleans), [d] over every description of the matching kind including the empty one, [A]
    over every list of row indexes, [base] over every base set (any order, any repetition). *)
-From FCA Require Import Base.ListSet Model.PatternStructure Spec.PatternSpec Spec.Galois Lemmas.C13.
+From FCA Require Import Base.ListSet Model.PatternStructure Spec.PatternSpec Spec.Galois Lemmas.C13
+     Lemmas.C13_Relabel.
 
 (* the extension is exactly the objects whose value d covers, taken from the base set, in the
    order of the base set, reported by original object index *)
@@ -66,6 +67,25 @@ Theorem C13_bin_attrs_meaning : forall c d e,
   e = map (fun g => mem g (ps_extension c d None)) (all_rows c).
 Proof. exact bin_attrs_meaning. Qed.
 Print Assumptions C13_bin_attrs_meaning.
+
+(* the interval engines are order-theoretic: intention, extension, the binary-attribute view and
+   n_bin_attrs commute with every strictly increasing relabelling [f] of the end points.  This is
+   what lets the correspondence send dyadic floats value/scale to the integers value, and the
+   extended reals of a case (finite grid values and +-infinity, as in the half-bounded
+   descriptions (a, inf), (-inf, b)) to Z by an order embedding with +-infinity at +-2^62.
+   Together with C13_numpy_agrees it covers both engines. *)
+Theorem C13_order_invariance : forall f : Z -> Z,
+  (forall a b, (a < b)%Z -> (f a < f b)%Z) ->
+  (forall data d base, opt_in_range (length data) base ->
+     ivl_extension (relabel f data) (option_map (relabel1 f) d) base = ivl_extension data d base) /\
+  (forall data A, in_range (length data) A ->
+     ivl_intention (relabel f data) A = option_map (relabel1 f) (ivl_intention data A)) /\
+  (forall data, data <> [] ->
+     ivl_bin_attrs (relabel f data)
+       = map (fun p => (option_map (relabel1 f) (fst p), snd p)) (ivl_bin_attrs data) /\
+     ivl_n_bin_attrs (relabel f data) = ivl_n_bin_attrs data).
+Proof. exact order_invariance. Qed.
+Print Assumptions C13_order_invariance.
 
 (* Non-vacuity: a column mixing a point and proper intervals (left <> right), an unsorted
    non-prefix base set, both engines; a set-valued and a boolean column. *)
